@@ -85,6 +85,8 @@ class Repo:
         self.by_relpath: Dict[str, ModuleInfo] = {}
         self.consulted: Dict[str, str] = {}
         self.overrides = overrides or {}
+        from . import vg as _vg
+        _vg.reset_state()  # a new source universe invalidates every interned value
         self._load()
 
     # ------------------------------------------------------------------ loading
